@@ -49,7 +49,7 @@ PROPS["C13"] = {
                    "c13::c13_negative_twin"],
          "timeout": 900},
         {"id": "e2e", "crate": "gen",
-         "quick": ["c13e::c13e_entry_shapes", "c13e::c13e_trait_and_method_markers", "c13e::c13e_payload_shapes", "c13e::c13e_roundtrip", "c13e::c13e_io_codes", "c13e::c13e_vtable_level", "c13e::c13e_negative_twin"],
+         "quick": ["c13e::c13e_entry_shapes", "c13e::c13e_trait_and_method_markers", "c13e::c13e_payload_shapes", "c13e::c13e_display_object_reports_fmt_errors", "c13e::c13e_roundtrip", "c13e::c13e_io_codes", "c13e::c13e_vtable_level", "c13e::c13e_negative_twin"],
          "timeout": 900},
     ],
     "negative": ["c13::c13_negative_twin", "c13e::c13e_negative_twin"],
